@@ -33,11 +33,11 @@ def _native_optimal(pc, seq):
     return outs
 
 
-def body_fwd(p):
+def body_fwd(p, ident=None):
     from harness.e1_common import realize, deep_realize, NoTracing, log, known_keys
     from rnapolis.common import BpSeq, Entry, DotBracket
     n = realize(len(p))
-    seq = LETTERS[:n]
+    seq = "".join(LETTERS[i % 26] for i in range(n))
     problems = []
     outs = []
     try:
@@ -78,9 +78,27 @@ def body_fwd(p):
                 problems.append((f"{name}: {pr}", name.split("[")[0].split("/")[0]))
         keys = sorted({f"BpSeq.{k}" for _, k in problems})
         ok = all(k in known_keys(PID) for k in keys)
-        log({"p": pc, "outs": len(outs), "problems": [m for m, _ in problems], "keys": keys,
-             "dual_mismatch": bool(mism), "kind": "fwd"})
+        rec = {"p": pc, "outs": len(outs), "problems": [m for m, _ in problems][:4], "keys": keys,
+               "dual_mismatch": bool(mism), "kind": "fwd"}
+        if ident is not None:
+            rec["id"] = ident
+        log(rec)
     return ok and not mism
+
+
+def body_family(kind, k, p):
+    """structured families: kind 0 = k leading hairpins + knotted tail; kind 1 = hairpins interleaved into the tail"""
+    from harness.e1_common import realize, NoTracing
+    kc = realize(k)
+    pc = [realize(x) for x in p]
+    big = padded(kc, pc) if kind == 0 else interleaved(kc, pc)
+    with NoTracing():
+        return body_fwd(big, [kind, kc, pc])
+
+
+def body_inflated(p, lens):
+    from harness.c02 import inflate
+    return body_fwd(inflate(list(p), list(lens)), [list(p), list(lens)])
 
 
 def body_rev(p, lv):
@@ -306,10 +324,16 @@ def run(rep, tier):
                                    call="l1, l2", body="body_levels", expected=5 * 29))
     parts.append(Partition("ladder", ["1 <= k <= 30"], sig="k: int", call="k", body="body_ladder", expected=30))
     nms = 6 if tier == "quick" else 8
-    parts.append(Partition("multistrand", [f"len(p) == {nms}", "valid(p)", f"1 <= cut < {nms}"], sig="p: List[int], cut: int",
-                           call="p, cut", body="body_multistrand", expected=len(list(all_pairings(nms))) * (nms - 1)))
+    for c in range(1, nms):
+        parts.append(Partition(f"multistrand_cut{c}", [f"len(p) == {nms}", "valid(p)", f"cut == {c}"], sig="p: List[int], cut: int",
+                               call="p, cut", body="body_multistrand", expected=len(list(all_pairings(nms)))))
     parts.sort(key=lambda x: -(x.expected or 0))
     e1.run("harness.c01", parts, per_condition_timeout=T)
+    from harness import pairing_driver as pd
+    fam = [("padded", n, 12) for n in (4, 5, 6)] + [("interleaved", n) for n in (4, 5, 6)] + [("inflated", 6, 3, 2)]
+    if tier != "quick":
+        fam += [("inflated", 8, 4, 2), ("inflated", 7, 3, 3)]
+    parts += pd.run_families(rep, "harness.c01", fam, body_inflated="body_inflated")
     e1.collect(rep, parts, "harness.c01")
     rep.add(functions_encoded=["BpSeq.__post_init__", "BpSeq.paired", "BpSeq.__stems_entries", "BpSeq.__regions",
                                "BpSeq.fcfs", "BpSeq.all_dot_brackets", "BpSeq.__make_dot_bracket",
@@ -318,6 +342,7 @@ def run(rep, tier):
                                "DotBracket.from_string", "MultiStrandDotBracket.from_string"],
             bounds={"forward N<=": Nmax, "converse N<=": Nrev, "converse bracket types": L,
                     "bracket tables": "all 30 types on two crossing stems" if tier != "quick" else "30 types, second level = first+7 mod 30",
+                    "families": "k<=12 leading hairpins + every knotted tail on 4..6 positions; hairpins interleaved into the tail; inflated knotted diagrams",
                     "ladder": "k<=30 mutually crossing pairs through FCFS", "multistrand N": nms,
                     "outside": "N larger than the bounds; structures needing >5 levels except ladders; non-letter sequences"},
             engines=["E1 CrossHair 0.0.110 (z3 5.1.0)", "E3 captured MILP -> z3 LIA"], exhaustive=True,
